@@ -261,9 +261,9 @@ class Interp:
         if isinstance(v, tuple) and v and v[0] == "not":
             return v[1]
         if isinstance(v, tuple) and v and v[0] == "cmp":
-            flip = {"Eq": "NotEq", "NotEq": "Eq", "Is": "IsNot", "IsNot": "Is", "In": "NotIn", "NotIn": "In",
-                    "Lt": "GtE", "GtE": "Lt", "Gt": "LtE", "LtE": "Gt"}
-            if v[1] in flip and (v[1] in ("Eq", "NotEq", "Is", "IsNot", "In", "NotIn") or (intish(v[2]) and intish(v[3]))):
+            # canonical comparisons are the positive ones: not(a == b) stays a negation, not(a != b) becomes a == b
+            flip = {"NotEq": "Eq", "IsNot": "Is", "NotIn": "In", "Lt": "GtE", "GtE": "Lt", "Gt": "LtE", "LtE": "Gt"}
+            if v[1] in ("NotEq", "IsNot", "NotIn") or (v[1] in flip and intish(v[2]) and intish(v[3])):
                 return ("cmp", flip[v[1]], v[2], v[3])
         return ("not", v)
 
